@@ -148,6 +148,10 @@ class Returned(Exception):
         self.value = value
 
 
+class Raised(Exception):
+    """The interpreted body reaches a `raise` in this cell."""
+
+
 class CellExec:
     """Execute a straight-line / if / return function body in one cell."""
 
@@ -201,5 +205,7 @@ class CellExec:
                     raise Undecided("augmented operator")
             elif isinstance(st, ast.Pass):
                 continue
+            elif isinstance(st, ast.Raise):
+                raise Raised(ast.unparse(st)[:80])
             else:
                 raise Undecided("statement %s" % type(st).__name__)
